@@ -12,6 +12,8 @@ if __name__ == "__main__":
 from vlib import *
 
 U64 = 1 << 64
+IMPL_TIMEOUT = 60     # a batch of 250 cases takes < 1 s; a hang (e.g. a probe sequence that is not a full cycle) is an observation
+ONE_TIMEOUT = 5       # one case
 PROPS_FILE = "IdMap/IdMapProps"
 
 
@@ -276,7 +278,7 @@ def spec_judge(model, cases, apis):
 
 
 def impl_fails_spec(impl, model, case):
-    out, crash = run_cases(impl, [case])
+    out, crash = run_cases(impl, [case], timeout=ONE_TIMEOUT)
     if crash:
         return True
     api, _ = split_obs(out[0])
@@ -296,7 +298,7 @@ def margs():
 
 
 def differs(impl, model, case):
-    io, crash = run_cases(impl, [case])
+    io, crash = run_cases(impl, [case], timeout=ONE_TIMEOUT)
     mo, _ = run_cases(model, [case], args=margs())
     if crash:
         return True
@@ -304,7 +306,7 @@ def differs(impl, model, case):
 
 
 def diag_differs(impl, model, case):
-    io, crash = run_cases(impl, [case])
+    io, crash = run_cases(impl, [case], timeout=ONE_TIMEOUT)
     mo, _ = run_cases(model, [case], args=margs())
     return (not crash) and split_obs(io[0])[1] != split_obs(mo[0])[1]
 
@@ -333,14 +335,18 @@ def run_idmap(rep, tier, rng, bdir, replay=None):
     spec_bad = 0
     for b0 in range(0, len(cases), 250):
         batch = cases[b0:b0 + 250]
-        iout, crash = run_cases(impl, batch, timeout=600)
+        iout, crash = run_cases(impl, batch, timeout=IMPL_TIMEOUT)
         mout, mcrash = run_cases(model, batch, timeout=900, args=margs())
         if crash:
             ci, rc, errtxt = crash
-            single, c2 = run_cases(impl, [batch[ci]])
-            small = ddmin(batch[ci], keep_init(lambda c: run_cases(impl, [c])[1] is not None)) if c2 else batch[ci]
+            if rc == -9:      # hang: find the case (the marks tell how far the batch got), shrink with a short timeout
+                ci = next((i for i, c in enumerate(batch) if run_cases(impl, [c], timeout=ONE_TIMEOUT)[1] is not None), ci)
+            single, c2 = run_cases(impl, [batch[ci]], timeout=ONE_TIMEOUT)
+            small = ddmin(batch[ci], keep_init(lambda c: run_cases(impl, [c], timeout=ONE_TIMEOUT)[1] is not None), max_iter=120) if c2 else batch[ci]
             p = rep.replay_file("idmap_crash_%d.case" % (b0 + ci), "# implementation crashed (rc=%s)\n# %s\n" % (rc, errtxt.replace("\n", "\n# ")) + "\n".join(small) + "\n")
-            rep.violation(p, "id map: implementation crashed / assertion / sanitizer report (rc=%s) on a precondition-respecting program" % rc)
+            rep.violation(p, "id map: implementation %s on a precondition-respecting program" % ("does not terminate (killed after %ds)" % IMPL_TIMEOUT if rc == -9 else "crashed / assertion / sanitizer report (rc=%s)" % rc))
+            if rc == -9:
+                break         # every further batch would hang as well
             continue
         apis = [split_obs(o) for o in iout]
         mapis = [split_obs(o) for o in mout]
@@ -366,9 +372,10 @@ def run_idmap(rep, tier, rng, bdir, replay=None):
             if ci in sv:
                 spec_bad += 1
                 k, text = sv[ci]
-                small = ddmin(case, keep_init(lambda c: impl_fails_spec(impl, model, c)))
+                small = ddmin(case, keep_init(lambda c: impl_fails_spec(impl, model, c))) if len(rep.violations) < 4 else case
                 p = rep.replay_file("idmap_spec_%d.case" % (b0 + ci), "# %s at op %d (%s)\n" % (text, k, case[k] if k < len(case) else "?") + "\n".join(small) + "\n")
-                known = "idmap-alloc-u64max-wrap" if ("alloc-range" in text and case[0].split()[2] == "ffffffffffffffff") else None
+                t0 = (case[0].split() + ["", "", ""])[:3] if case else ["", "", ""]
+                known = "idmap-alloc-u64max-wrap" if ("alloc-range" in text and t0[2] == "ffffffffffffffff") else None
                 rep.violation(p, "id map: implementation contradicts the finite-map / fresh-in-range-cyclic-alloc spec: %s (op %d: %s)" % (text[:200], k, case[k] if k < len(case) else "?"), key=known)
             elif api != mapi:
                 k = next((i for i in range(max(len(api), len(mapi))) if i >= len(api) or i >= len(mapi) or api[i] != mapi[i]), 0)
